@@ -60,15 +60,15 @@ def _judge(mods, ndecl, dialect):
     return True
 
 
-def _wrap(sent, ndecl=1, nimp=0, nsym=1, modoid=False, exports=False):
-    return _judge([f.module('ZQMOD', nimp, nsym, modoid, exports, [sent], sent.dialect)], [ndecl], sent.dialect)
+def _wrap(sent, ndecl=1, nimp=0, nsym=1, modoid=False, exports=False, samefrom=False):
+    return _judge([f.module('ZQMOD', nimp, nsym, modoid, exports, [sent], sent.dialect, samefrom=samefrom)], [ndecl], sent.dialect)
 
 
-def value_decl(shape: int, a: int, b: int, nimp: int, nsym: int, modoid: bool, exports: bool) -> bool:
+def value_decl(shape: int, a: int, b: int, nimp: int, nsym: int, modoid: bool, exports: bool, samefrom: bool) -> bool:
     """
-    requires: 0 <= shape <= 3 and arc(a, b) and 0 <= nimp <= 2 and 1 <= nsym <= 3
+    requires: 0 <= shape <= 3 and arc(a, b) and 0 <= nimp <= 3 and 1 <= nsym <= 3
     """
-    return _wrap(f.f_value(shape, a, b), 1, nimp, nsym, modoid, exports)
+    return _wrap(f.f_value(shape, a, b), 1, nimp, nsym, modoid, exports, samefrom)
 
 
 def object_identity(ref: bool, shape: int, a: int, b: int) -> bool:
@@ -272,7 +272,7 @@ def conditions(prop, tier):
     t = 280 if q else 1500
     out = []
     out.append(dict(name='C02.tree.valueDeclaration', fn='value_decl', fixed={}, timeout=t,
-                    bounds='4 OID spellings, arcs unbounded in 0..2^32-1; IMPORTS with 0..2 clauses of 1..3 symbols, module OID, EXPORTS'))
+                    bounds='4 OID spellings, arcs unbounded in 0..2^32-1; IMPORTS with 0..3 clauses of 1..3 symbols (from distinct modules or repeatedly from the same one), module OID, EXPORTS'))
     out.append(dict(name='C02.tree.objectIdentity', fn='object_identity', fixed={}, timeout=t, bounds='REFERENCE on/off, 4 OID spellings, arcs unbounded'))
     for variant in range(9):
         if q and variant in (2, 6, 7, 8):
@@ -325,7 +325,8 @@ def in32x(*vs):
 
 
 def selftests(prop):
-    return [('value_decl', dict(shape=2, a=5, b=6, nimp=2, nsym=3, modoid=True, exports=True)),
+    return [('value_decl', dict(shape=2, a=5, b=6, nimp=2, nsym=3, modoid=True, exports=True, samefrom=False)),
+            ('value_decl', dict(shape=0, a=5, b=6, nimp=3, nsym=2, modoid=False, exports=False, samefrom=True)),
             ('object_identity', dict(ref=True, shape=3, a=5, b=6)),
             ('object_type', dict(variant=3, units=True, access=True, descr=True, ref=True, idx=1, nidx=3, im0=True, im1=False, defval=5, dv=0, a=-1, b=2)),
             ('object_type', dict(variant=1, units=False, access=False, descr=False, ref=False, idx=2, nidx=1, im0=False, im1=False, defval=1, dv=0, a=-U64, b=U64)),
